@@ -1,6 +1,6 @@
-"""ASTM E1049-85 (2005) section 5.4.4 "Rainflow counting", rules 1-6, written once as
-specification blocks over an explicit stack  pts[0..j]  of not-yet-discarded reversals
-(cycle_index[i] = position of pts[i] in the input), S = pts[0] the starting point.
+"""ASTM E1049-85 (2005) section 5.4.4 "Rainflow counting", the text the specification blocks in
+contracts/rainflow.py are written from (stack pts[0..j] of not-yet-discarded reversals, cycle_index[i] = input
+position of pts[i], S = pts[0] the starting point):
 
  (1) Read next peak or valley. If out of data, go to Step 6.
  (2) If there are less than three points, go to Step 1. Form ranges X and Y using the three
@@ -12,70 +12,9 @@ specification blocks over an explicit stack  pts[0..j]  of not-yet-discarded rev
      starting point to the second point in range Y; and go to Step 2.
  (6) Count each range that has not been previously counted as one-half cycle.
 
-The blocks are independent of the code under proof: they read the reversal values from the INPUT
-(`peaks[...]` through the offsets), not from the implementation's work buffer, and they state the
-discards as what remains on the stack. The table row layout [amplitude, mean, count] and the
-offset row [start, stop] are the documented return format.
+The blocks read the reversal VALUES from the input (`peaks[offset]`), not from the implementation's work
+buffer, and state the discards as what remains on the stack; the row layout [amplitude, mean, count] /
+[start, stop] is the documented return format.  X = |pts[j-1]-pts[j]| is the most recent range,
+Y = |pts[j-2]-pts[j-1]| the previous one; "Y contains S" <=> Y's first point is stack position 0.
 """
-
-# Step 1: the next reversal (input position k) is put on the stack of undiscarded points.
-STEP1 = """
-j = j + 1
-pts[j] = peaks[k]
-cycle_index[j] = k
-"""
-STEP1_COUPLING = ["j == j_s",
-                  "forall(i, 0, j + 1, pts[i] == pts_s[i] and cycle_index[i] == cycle_index_s[i])"]
-
-# Steps 2-5: one pass of the decision on the three most recent undiscarded points.
-#   X = |pts[j-1] - pts[j]|  (most recent range),  Y = |pts[j-2] - pts[j-1]|  (previous range).
-STEPS_2_TO_5 = """
-a = cycle_index[j - 2]
-b = cycle_index[j - 1]
-c = cycle_index[j]
-Y = abs(peaks[a] - peaks[b])
-X = abs(peaks[b] - peaks[c])
-if X < Y:
-    break                              # 3(a): go to step 1
-n = n + 1
-rf[n, 0] = abs(peaks[a] - peaks[b]) / 2
-rf[n, 1] = (peaks[a] + peaks[b]) / 2
-os[n, 0] = a
-os[n, 1] = b
-if j - 2 == 0:                         # Y contains the starting point S = pts[0]
-    rf[n, 2] = 0.5                     # step 5: one-half cycle; discard first point of Y;
-    pts[0] = peaks[b]                  #         S moves to the second point of Y
-    cycle_index[0] = b
-    pts[1] = peaks[c]
-    cycle_index[1] = c
-    j = 1
-else:
-    rf[n, 2] = 1.0                     # step 4: one cycle; discard both points of Y
-    fullcyclesp1 = fullcyclesp1 + 1
-    pts[j - 2] = peaks[c]
-    cycle_index[j - 2] = c
-    j = j - 2
-"""
-STEPS_2_TO_5_COUPLING = [
-    "j == j_s", "n == n_s", "fullcyclesp1 == fullcyclesp1_s",
-    "forall(i, 0, j + 1, pts[i] == pts_s[i] and cycle_index[i] == cycle_index_s[i])",
-    "forall(i, 0, n + 1, rf[i, 0] == rf_s[i, 0] and rf[i, 1] == rf_s[i, 1] and rf[i, 2] == rf_s[i, 2]"
-    " and os[i, 0] == os_s[i, 0] and os[i, 1] == os_s[i, 1])",
-]
-
-# Step 6: every remaining range on the stack is one-half cycle (range k = points k, k+1).
-STEP6 = """
-a = cycle_index[k]
-b = cycle_index[k + 1]
-n = n + 1
-rf[n, 0] = abs(peaks[a] - peaks[b]) / 2
-rf[n, 1] = (peaks[a] + peaks[b]) / 2
-rf[n, 2] = 0.5
-os[n, 0] = a
-os[n, 1] = b
-"""
-STEP6_COUPLING = [
-    "n == n_s",
-    "forall(i, 0, n + 1, rf[i, 0] == rf_s[i, 0] and rf[i, 1] == rf_s[i, 1] and rf[i, 2] == rf_s[i, 2]"
-    " and os[i, 0] == os_s[i, 0] and os[i, 1] == os_s[i, 1])",
-]
+TEXT = __doc__
